@@ -626,9 +626,18 @@ def c07(tier):
     t2, _ = soup_tasks("full", 2, "six", sample_every=Q(tier, 1999, 499))
     tasks += t2 + walk_tasks(Q(tier, 20000, 300000), "six", sample_every=997)
     c.explore(tasks, "regions", ["C07", "C08"], sample_cap=Q(tier, 80, 400))
+    # "code outside these regions is still formatted": two layouts whose regions hold the same bytes give the same output
+    # (the relation of C06, restricted to programs with regions and routines with asm bodies)
+    t3 = program_tasks(tier, Q(tier, "two", "six"), [REGIONSF, REGIONSF2], alts=Q(tier, (0, 2, 3), (0, 2, 3, 4, 1)), cfg_mode="rotate", sample_every=Q(tier, 299, 2999))
+    t3 += split_tasks("asm", {"count": na, "seed": SEED + 1}, na, [], "two", chunks=16, sample_every=Q(tier, 499, 4999))
+    rows = c.explore(t3, "outside", ["C07", "C06"], sample_cap=Q(tier, 40, 200))
+    for r in rows:
+        if r.get("t") == "viol" and r.get("prop") == "C06" and "[site:" not in r.get("detail", ""):
+            c.add_violation({"prop": "C07", "clause": "outside_depends_on_layout", "detail": "code outside the verbatim regions is not (fully) formatted - two layouts with identical regions give different results: " + r["detail"],
+                             "case": r.get("case"), "confirmed_by_tlc": True})
     return c.finish(
         rule="verbatim regions inserted between any two tokens of generated programs (10 off / 6 on spellings incl. multi-line comment toggles with CR / LF / tab separators and near-misses; one or two regions per program, also inside one statement; regions that run to the end of a file without a final line break), toggle comments in token soup and random walks, and routines with asm bodies (22 instruction-line shapes incl. labels, `;` separators, comments, inline conditional directives, asm string literals; LF and CRLF); "
-             "the byte string of every region computed by the specification's recogniser (Toggle.tla mirror) from the scanned input must occur in the output, in order, and the set of tokens the formatter treats as verbatim must be exactly the regions plus asm instruction lines")
+             "the byte string of every region computed by the specification's recogniser (Toggle.tla mirror) from the scanned input must occur in the output, in order, and the set of tokens the formatter treats as verbatim must be exactly the regions plus asm instruction lines; toggle regions that end or start in the middle of an asm instruction line; code outside the regions is formatted: two layouts that keep the regions' bytes give the same output (Session.tla relation relayout)")
 
 
 def reflow_mc(c):
